@@ -40,6 +40,9 @@ from .spec import (
 )
 from .values import (
     BYTES,
+    LINE,
+    SPAN,
+    TLine,
     BOOL,
     FRAG,
     GAP,
@@ -303,11 +306,13 @@ class Engine:
         if isinstance(c, bytes):
             # bytes values are abstract: (kind, first, n); kind 1 = a run of one filler character,
             # kind 3 = line terminator (see specs/fasta.py)
-            if c == b"\n":
-                return [(st, bytes_val(3, 0, 1))]
+            if c and set(c) <= set(b"\r\n"):
+                return [(st, bytes_val(3, 0, len(c)))]
             if len(set(c)) <= 1:
                 return [(st, bytes_val(1, 0, len(c)))]
-            raise OutOfSubset(f"bytes constant {c!r}")
+            # any other bytes literal (a regular expression, ...): python-side constant, meaningful only to the
+            # library model that receives it
+            return [(st, Val(TConst(), ("bytes", c)))]
         raise OutOfSubset(f"constant {c!r}")
 
     def ev_Name(self, e, st, exc):
@@ -442,7 +447,24 @@ class Engine:
             out.append((s, self.binop(s, e.op, a, b, exc, e.lineno)))
         return out
 
+    def unopt_number(self, s, v, exc, what, line):
+        """an Optional number used as an arithmetic / ordering operand: TypeError when it is None"""
+        if isinstance(v.ty, TOpt) and v.ty.inner in (INT, REAL):
+            S = v.ty.sort()
+            self.guard(s, exc, "TypeError", v.z != S.none, f"None as operand of {what}", line)
+            return Val(v.ty.inner, z3.simplify(S.val(v.z)))
+        if v.ty == NONE:
+            s2 = s.clone()
+            s2.ghost["raise_site"] = f"None as operand of {what}@L{line}"
+            exc.append(Outcome("raise", s2, "TypeError"))
+            s.assume(z3.BoolVal(False))
+            return mk_int(0)
+        return v
+
     def binop(self, s, op, a, b, exc, line):
+        if (isinstance(a.ty, TOpt) or a.ty == NONE or isinstance(b.ty, TOpt) or b.ty == NONE) and not (a.ty == STR or b.ty == STR):
+            a = self.unopt_number(s, a, exc, type(op).__name__, line)
+            b = self.unopt_number(s, b, exc, type(op).__name__, line)
         if a.ty == INT and b.ty == INT:
             if isinstance(op, ast.Add):
                 return mk_int(a.z + b.z)
@@ -582,6 +604,9 @@ class Engine:
         if isinstance(op, ast.IsNot):
             return z3.Not(self.is_(s, a, b))
         if isinstance(op, (ast.Lt, ast.LtE, ast.Gt, ast.GtE)):
+            if isinstance(a.ty, TOpt) or isinstance(b.ty, TOpt):
+                a = self.unopt_number(s, a, exc, "comparison", line)
+                b = self.unopt_number(s, b, exc, "comparison", line)
             if a.ty in (INT, REAL) and b.ty in (INT, REAL):
                 az, bz = a.z, b.z
                 if a.ty != b.ty:
@@ -672,7 +697,7 @@ class Engine:
             return [(s, v)]
         if isinstance(ty, TConst) and recv.z[0] == "pydict":
             return [(s, Val(TFunc(), ("method", recv, attr)))]
-        if isinstance(ty, TMatch):
+        if isinstance(ty, TMatch) or ty == LINE or ty == SPAN or (isinstance(ty, TConst) and recv.z[0].startswith("linetail")):
             return [(s, Val(TFunc(), ("method", recv, attr)))]
         if isinstance(ty, TConst):
             kind = recv.z[0]
@@ -786,6 +811,19 @@ class Engine:
         ty = c.ty
         if ty == BYTES:
             raise OutOfSubset(f"subscript of an abstract bytes value at L{line}")
+        if ty == LINE and i.ty == INT:
+            iz = z3.simplify(i.z)
+            if z3.is_int_value(iz) and iz.as_long() == 0:
+                self.guard(s, exc, "IndexError", smt.l_len(c.z) >= 1, "line[0]", line)
+                return [(s, mk_int(smt.l_b0(c.z)))]
+            if z3.is_int_value(iz) and iz.as_long() == -2:
+                self.guard(s, exc, "IndexError", smt.l_len(c.z) >= 2, "line[-2]", line)
+                return [(s, mk_int(smt.l_bm2(c.z)))]
+            raise OutOfSubset(f"line[{iz}] at L{line}")
+        if isinstance(ty, TConst) and c.z[0] == "linetail.split" and i.ty == INT and z3.is_int_value(z3.simplify(i.z)) and z3.simplify(i.z).as_long() == 0:
+            # line[1:].split()[0]: IndexError when nothing follows the '>'
+            self.guard(s, exc, "IndexError", smt.l_named(c.z[1].z), "line[1:].split()[0]", line)
+            return [(s, Val(TConst(), ("linetail.split.0", c.z[1])))]
         if ty in (STRLIST, STRSEQ) and i.ty == INT:
             n = z3.Length(c.z)
             k = self.norm_index(s, i.z, n)
@@ -837,6 +875,10 @@ class Engine:
 
     def slice(self, s, c, lo, hi, step, line):
         ty = c.ty
+        if ty == LINE:
+            if lo is not None and hi is None and step is None and z3.is_int_value(z3.simplify(lo.z)) and z3.simplify(lo.z).as_long() == 1:
+                return Val(TConst(), ("linetail", c))
+            raise OutOfSubset(f"slice of a file line at L{line}")
         if ty in (STRLIST, STRSEQ) and hi is None and step is None and lo is not None:
             # xs[k:] with a non-negative constant k
             kz = z3.simplify(lo.z)
@@ -892,7 +934,20 @@ class Engine:
                         seq = z3.Concat(seq, z3.Unit(v.z))
                     out.append((s, Val(STRLIST, seq)))
                 return out
-            raise OutOfSubset("list display with elements")
+            # [a, b, ...]: a new list holding the elements (all of one type)
+            out = []
+            for s, vals in self.ev_seq(e.elts, st, exc):
+                hinted = self.hint_type(e, None)
+                elem = hinted.elem if isinstance(hinted, TList) else vals[0].ty
+                if any(type(v.ty) is not type(elem) for v in vals):
+                    raise OutOfSubset("list display with elements of different types")
+                new = s.new_ref()
+                arr = smt.fresh("display", z3.ArraySort(smt.Int, elem.sort()))
+                for i, v in enumerate(vals):
+                    arr = z3.Store(arr, i, pack(v, elem))
+                set_list(s, elem, new, arr=arr, lo=z3.IntVal(0), hi=z3.IntVal(len(vals)))
+                out.append((s, Val(TList(elem), new)))
+            return out
         out = []
         if not e.elts:
             elem = self.hint_type(e, TList(ROW)).elem
@@ -938,6 +993,8 @@ class Engine:
         new = st.new_ref()
         nh, has, nv, val = dict_maps(st, ty.key, ty.val)
         st.heap[nh] = z3.Store(has, new, z3.K(ty.key.sort(), z3.BoolVal(False)))
+        szn = f"DSZ.{sort_key(ty.key)}.{sort_key(ty.val)}"
+        st.heap[szn] = z3.Store(st.hmap(szn, smt.Int, smt.Int), new, z3.IntVal(0))
         return [(st, Val(ty, new))]
 
     # -- calls
@@ -1085,6 +1142,18 @@ class Engine:
             return mk_int(z3.StrToInt(v.z))
         if ty == STRSEQ and v.ty == STRLIST:
             return Val(STRSEQ, v.z)
+        if isinstance(ty, TTuple) and isinstance(v.ty, TTuple) and isinstance(v.z, tuple) and len(v.z) == len(ty.elems):
+            # element-wise; an Optional element stored where the declared type has none must not be None
+            # (a restriction of the model, hence an obligation and not an exception of the program)
+            parts = []
+            for x, t in zip(v.z, ty.elems):
+                if isinstance(x.ty, TOpt) and not isinstance(t, TOpt):
+                    S = x.ty.sort()
+                    self.oblige(s, f"{what}: element is not None", "safety", x.z != S.none, line)
+                    s.assume(x.z != S.none)
+                    x = unpack(x.ty.inner, z3.simplify(S.val(x.z)))
+                parts.append(self.coerce(s, x, t, what, line, exc))
+            return Val(ty, tuple(parts))
         if ty == STRSEQ and isinstance(v.ty, TTuple):
             seq = z3.Empty(smt.StrSeq)
             for x in v.z:
@@ -1143,6 +1212,13 @@ class Engine:
         if con.ensures is not None:
             for label, f in conj(con.ensures(o, n, view(s, res) if res.ty != NONE else None)):
                 s.assume(f)
+        if getattr(con, "zero_based", None) is not None:
+            # lists the callee creates with a window starting at 0 (its proof shows `cond -> lo == 0`, clause
+            # zero-based): recorded in the list map, so element terms stay free of offset arithmetic
+            for cond, lv in con.zero_based(o, n, view(s, res) if res.ty != NONE else None):
+                if z3.is_true(z3.simplify(cond)):
+                    s.assume(ListView(s, lv.z, lv.elem).lo == 0)
+                    set_list(s, lv.elem, lv.z, lo=z3.IntVal(0))
         return [(s, res)]
 
     def apply_havoc(self, con, o, s):
@@ -1170,6 +1246,17 @@ class Engine:
             s.heap[f"LLO.{k}"] = z3.Store(L, r, smt.fresh("hv.lo", smt.Int))
             s.heap[f"LHI.{k}"] = z3.Store(H, r, smt.fresh("hv.hi", smt.Int))
             for nm in (f"LA.{k}", f"LLO.{k}", f"LHI.{k}"):
+                self.note_write(nm, r)
+        elif kind == "list-append":
+            # the list only grows at its end: content and upper end of the window change, its start does not
+            # (the frame obligation of the callee proves that LLO is not written)
+            _, elem, ref = loc
+            k = sort_key(elem)
+            A, L, H = list_maps(s, elem)
+            r = unview(ref)
+            s.heap[f"LA.{k}"] = z3.Store(A, r, smt.fresh("hv.arr", z3.ArraySort(smt.Int, elem.sort())))
+            s.heap[f"LHI.{k}"] = z3.Store(H, r, smt.fresh("hv.hi", smt.Int))
+            for nm in (f"LA.{k}", f"LHI.{k}"):
                 self.note_write(nm, r)
         elif kind == "dict-maps":
             # all dictionaries of one key/value type may change (the ensures clause frames the others)
@@ -1528,6 +1615,11 @@ class Engine:
             if not z3.is_string_value(pz):
                 raise OutOfSubset("re.match with a non-literal pattern")
             return [(s, Val(TMatch(), (f"{name}:{pz.as_string()}", pos[1].z)))]
+        if mod == "re" and name == "finditer" and len(pos) == 2 and pos[1].ty == BYTES:
+            a = pos[0]
+            if not (isinstance(a.ty, TConst) and a.z == ("bytes", rb"[ACGTacgt]+")):
+                raise OutOfSubset(f"re.finditer with another pattern at L{line}")
+            return [(s, self.acgt_runs(s, pos[1]))]
         if mod == "math" and name == "floor":
             (x,) = pos
             if x.ty == REAL:
@@ -1536,9 +1628,49 @@ class Engine:
                 return [(s, x)]
         raise OutOfSubset(f"{mod}.{name} at L{line}")
 
+    def acgt_runs(self, s, b):
+        """re.finditer(rb"[ACGTacgt]+", <residues [first, first+n) of the file>): the list of the maximal runs of
+        ACGT characters, as (start, end) spans relative to the start of the bytes value, in order (model of the
+        library function over the ghost predicate smt.acgt; trusted, validated by the bounded tier)"""
+        kind, first, n = (x.z for x in b.z)
+        ty = TList(SPAN)
+        ref = s.new_ref()
+        lst = Val(ty, ref)
+        arr = smt.fresh("runs", z3.ArraySort(smt.Int, SPAN.sort()))
+        cnt = smt.fresh("nruns", smt.Int)
+        set_list(s, SPAN, ref, arr=arr, lo=z3.IntVal(0), hi=cnt)
+        S = SPAN.sort()
+        st_ = lambda k: S.accessor(0, 0)(arr[k])
+        en_ = lambda k: S.accessor(0, 1)(arr[k])
+        k = z3.Int("k!runs")
+        g = z3.Int("g!runs")  # absolute residue number: keeps the trigger acgt(g) free of arithmetic
+        s.assume(kind == 0)
+        s.assume(cnt >= 0)
+        s.assume(z3.ForAll([k], z3.Implies(z3.And(0 <= k, k < cnt), z3.And(0 <= st_(k), st_(k) < en_(k), en_(k) <= n)), patterns=[arr[k]]))
+        s.assume(z3.ForAll([k], z3.Implies(z3.And(0 <= k, k + 1 < cnt), en_(k) < st_(k + 1)), patterns=[arr[k]]))
+        # inside a run every residue is ACGT; between runs, before the first and after the last none is
+        s.assume(z3.ForAll([k, g], z3.Implies(z3.And(0 <= k, k < cnt, first + st_(k) <= g, g < first + en_(k)), smt.acgt(g)), patterns=[z3.MultiPattern(arr[k], smt.acgt(g))]))
+        s.assume(z3.ForAll([k, g], z3.Implies(z3.And(0 <= k, k + 1 < cnt, first + en_(k) <= g, g < first + st_(k + 1)), z3.Not(smt.acgt(g))),
+                           patterns=[z3.MultiPattern(arr[k], smt.acgt(g))]))
+        s.assume(z3.ForAll([g], z3.Implies(z3.And(first <= g, g < first + z3.If(cnt > 0, st_(0), n)), z3.Not(smt.acgt(g))), patterns=[smt.acgt(g)]))
+        s.assume(z3.ForAll([g], z3.Implies(z3.And(cnt > 0, first + en_(cnt - 1) <= g, g < first + n), z3.Not(smt.acgt(g))), patterns=[smt.acgt(g)]))
+        return lst
+
     def builtin_method(self, s, recv, name, pos, kw, exc, node):
         line = node.lineno
         ty = recv.ty
+        if ty == LINE and name == "rstrip":
+            # line.rstrip(b"\r\n"): the residues of the line, without its terminator
+            a = node.args[0] if len(node.args) == 1 else None
+            if not (isinstance(a, ast.Constant) and a.value == b"\r\n"):
+                raise OutOfSubset(f"line.rstrip with another argument at L{line}")
+            return [(s, bytes_val(0, smt.l_gp(recv.z), smt.l_slen(recv.z)))]
+        if isinstance(ty, TConst) and recv.z[0] == "linetail" and name == "split" and not pos and not kw:
+            return [(s, Val(TConst(), ("linetail.split", recv.z[1])))]
+        if isinstance(ty, TConst) and recv.z[0] == "linetail.split.0" and name == "decode" and not pos and not kw:
+            return [(s, mk_str(smt.l_name(recv.z[1].z)))]
+        if ty == SPAN and name in ("start", "end") and not pos and not kw:
+            return [(s, recv.z[0 if name == "start" else 1])]
         if isinstance(ty, TList):
             lv = ListView(s, recv.z, ty.elem)
             k = sort_key(ty.elem)
@@ -1752,6 +1884,17 @@ class Engine:
         m = getattr(self, "st_" + type(stmt).__name__, None)
         if m is None:
             raise OutOfSubset(f"statement {type(stmt).__name__} at L{stmt.lineno}")
+        sp = getattr(self, "stmt_posts", None)
+        if sp and id(stmt) in sp:
+            # postcondition of one statement (before -> after), proved on every normal way out of it
+            label, post = sp[id(stmt)]
+            before = NS(st.clone(), {})
+            outs = m(stmt, st)
+            for oc in outs:
+                if oc.kind == "normal":
+                    for lbl, f in conj(post(NS(oc.st, {}), before, self.pre_ns)):
+                        self.oblige(oc.st, f"after[{label}][{lbl}]", "post", f, stmt.lineno)
+            return outs
         return m(stmt, st)
 
     def st_Pass(self, stmt, st):
@@ -1929,10 +2072,13 @@ class Engine:
             nh, has, nv, val = dict_maps(s, ty.key, ty.val)
             kz = pack(i, ty.key)
             vz = pack(self.coerce(s, v, ty.val, "dict value", line), ty.val)
+            szn = f"DSZ.{sort_key(ty.key)}.{sort_key(ty.val)}"
+            size = s.hmap(szn, smt.Int, smt.Int)
+            s.heap[szn] = z3.Store(size, c.z, size[c.z] + z3.If(has[c.z][kz], 0, 1))
             s.heap[nh] = z3.Store(has, c.z, z3.Store(has[c.z], kz, z3.BoolVal(True)))
             s.heap[nv] = z3.Store(val, c.z, z3.Store(val[c.z], kz, vz))
-            self.note_write(nh, c.z)
-            self.note_write(nv, c.z)
+            for nm in (nh, nv, szn):
+                self.note_write(nm, c.z)
             return [s]
         raise OutOfSubset(f"item store on {ty} at L{line}")
 
@@ -1981,6 +2127,25 @@ class Engine:
         if spec is None:
             raise SpecInapplicable(f"no loop spec for loop #{ordinal} at L{node.lineno} of {self.fn.short}")
         return ordinal, spec
+
+    def st_With(self, stmt, st):
+        """with <expr> as <name>: body.  Only the binding is modelled: __exit__ (closing the file) has no
+        effect on the state the contracts talk about and exceptions propagate unchanged."""
+        if len(stmt.items) != 1:
+            raise OutOfSubset("with several items")
+        item = stmt.items[0]
+        exc = []
+        outs = []
+        for s, v in self.ev(item.context_expr, st, exc):
+            if not (isinstance(v.ty, TRef) and v.ty.cls in ("LineFile", "TextOut")):
+                raise OutOfSubset(f"with over {v.ty} at L{stmt.lineno}")
+            if item.optional_vars is None:
+                targets = [s]
+            else:
+                targets = self.assign_target(item.optional_vars, v, s, exc)
+            for s2 in targets:
+                outs.extend(self.exec_block(stmt.body, s2))
+        return outs + exc
 
     def st_While(self, stmt, st):
         if stmt.orelse:
@@ -2047,12 +2212,25 @@ class Engine:
         enum = isinstance(it, ast.Call) and isinstance(it.func, ast.Name) and it.func.id == "enumerate"
         src = it.args[0] if enum else it
         for s, lst in self.ev(src, st, exc0):
+            linefile = None
+            if lst.ty == TRef("LineFile"):
+                # iterating a binary file yields its lines in order; the ghost cursor of the file object
+                # (what tell() returns) is the offset just after the line handed out
+                linefile = lst
+                _, m, fty = field_map(s, "LineFile", "g_lines")
+                lst = unpack(fty, z3.simplify(m[linefile.z]))
+                self.note_list(s, lst)
+            if isinstance(lst.ty, TOpt) and isinstance(lst.ty.inner, TList):
+                S = lst.ty.sort()
+                self.guard(s, exc0, "TypeError", lst.z != S.none, "iteration over None", stmt.lineno)
+                lst = unpack(lst.ty.inner, z3.simplify(S.val(lst.z)))
+                self.note_list(s, lst)
             if not isinstance(lst.ty, TList):
                 raise OutOfSubset(f"for over {lst.ty} at L{stmt.lineno}")
             s.assign(hid, mk_int(0))
             s.assign(hid + "_seq", lst)
 
-            def head(s1, exc, lst=lst):
+            def head(s1, exc, lst=lst, linefile=linefile):
                 i = s1.lookup(hid).z
                 lv = ListView(s1, lst.z, lst.ty.elem)
                 res = []
@@ -2061,6 +2239,9 @@ class Engine:
                         lv2 = ListView(s2, lst.z, lst.ty.elem)
                         s2.assume(i >= 0)
                         item = unpack(lst.ty.elem, lv2.arr[_plus(lv2.lo, i)])
+                        if linefile is not None:
+                            for s2b in self.set_attr(s2, linefile, "g_pos", mk_int(smt.l_off(item.z) + smt.l_len(item.z)), exc, stmt.lineno):
+                                pass
                         v = Val(TTuple([INT, item.ty]), (mk_int(i), item)) if enum else item
                         for s3 in self.assign_target(stmt.target, v, s2, exc):
                             res.append((s3, True))
@@ -2111,8 +2292,37 @@ class Engine:
         return conj(spec.inv(v, e, self.pre_ns) if n >= 3 else spec.inv(v, e))
 
     def cut_loop(self, node, st, ordinal, spec, head, advance, body, hidden=()):
-        """Loop cutting: assert the invariant on entry, havoc what the loop changes, assume the
-        invariant, run one arbitrary iteration, assert the invariant (and variant) at the back edge."""
+        """The set of locals and heap maps a loop changes is found by a dry run from the entry state, where
+        branches that cannot be taken in the first iteration are pruned.  Everything the arbitrary iteration
+        (run from the havocked state) really assigns or writes is therefore recorded too, and if it touches
+        something that was not havocked the loop is cut again with the larger set - until nothing new appears."""
+        extra_locals, extra_maps = set(), set()
+        for _ in range(6):
+            mark = len(self.obligations)
+            snapshot = st.clone()
+            saved = (self.disc_locals, self.disc_maps, self.disc_refs)
+            rec_l, rec_m = set(), set()
+            self.disc_locals, self.disc_maps = rec_l, rec_m
+            if saved[2] is None:
+                self.disc_refs = None
+            try:
+                outs, used_l, used_m, live = self._cut_loop(node, st, ordinal, spec, head, advance, body, hidden, extra_locals, extra_maps)
+            finally:
+                self.disc_locals, self.disc_maps, self.disc_refs = saved
+                if saved[0] is not None:
+                    saved[0].update(rec_l)
+                    saved[1].update(rec_m)
+            new_l = {x for x in rec_l if x not in used_l and x in live}
+            new_m = rec_m - used_m
+            if not new_l and not new_m:
+                return outs
+            extra_locals |= new_l
+            extra_maps |= new_m
+            del self.obligations[mark:]
+            st.__dict__.update(snapshot.__dict__)
+        raise OutOfSubset(f"loop #{ordinal}: the set of written locations did not stabilise")
+
+    def _cut_loop(self, node, st, ordinal, spec, head, advance, body, hidden, extra_locals, extra_maps):
         line = node.lineno
         fp = ("for", ast.unparse(node.target), ast.unparse(node.iter)) if isinstance(node, ast.For) else ("while", "", ast.unparse(node.test))
         if spec.kind is not None and spec.kind != fp[0]:
@@ -2131,12 +2341,19 @@ class Engine:
             self.oblige(st, f"loop{ordinal}.inv[{label}].entry", "inv-entry", f, line)
         # 2. discovery of what the loop assigns / writes (dry run, no obligations)
         mod_locals, mod_maps, allocs = self.discover(st, head, advance, body)
+        mod_locals = set(mod_locals) | set(extra_locals)
+        mod_maps = set(mod_maps) | set(extra_maps)
+        if extra_maps:
+            allocs = True
         for h in hidden:
             mod_locals.add((st.cur, h))
+        live = {(fi, name) for fi, fr in enumerate(st.frames) for name in fr.vars}
         # 3. havoc
         fresh_mark = smt._fresh_n[0]
         s = st.clone()
         for fi, name in sorted(mod_locals):
+            if fi >= len(s.frames):
+                continue  # local of a closure frame created (and left) inside the loop body
             cur = s.frames[fi].vars.get(name)
             ty = spec.types.get(name) or (cur.ty if cur is not None else None)
             if ty is None:
@@ -2207,7 +2424,10 @@ class Engine:
                     s2 = oc.st
                     if spec.iter_post is not None:
                         # postcondition of one iteration (state at body start -> state at body end)
-                        for label, f in conj(spec.iter_post(NS(s2, {}), b_ns, e_ns)):
+                        import inspect
+
+                        ip_args = (NS(s2, {}), b_ns, e_ns, self.pre_ns) if len(inspect.signature(spec.iter_post).parameters) >= 4 else (NS(s2, {}), b_ns, e_ns)
+                        for label, f in conj(spec.iter_post(*ip_args)):
                             self.oblige(s2, f"loop{ordinal}.iteration[{label}]", "iter-post", f, line)
                     advance(s2)
                     v2 = NS(s2, {})
@@ -2228,7 +2448,7 @@ class Engine:
                     outs.append(Outcome("normal", oc.st))
                 else:
                     outs.append(oc)
-        return outs + exc
+        return outs + exc, mod_locals, mod_maps, live
 
     def auto_frame(self, s, head, advance, body, ordinal, mod_maps, fresh_mark=0):
         """Default frame of a loop: a heap map written only at references that do not depend on
